@@ -6,6 +6,7 @@
 -/
 import Flamego.Code.GoSem
 import Flamego.Model.Tree
+import Flamego.Model.Router
 namespace Flamego.Lib
 open Flamego.GoSem
 
@@ -20,5 +21,9 @@ inductive Dispatch
 
 def Leaf_Handler (l : Leaf) : FuncVal := (l.hid : Int)
 def Leaf_Route (l : Leaf) : Bytes := l.route.render
+/-- `Leaf.URLPath(vals, withOptional)`: the model's URL builder on the leaf's route (Model/Router.lean `urlPath`; its own
+theorems are Props/C12's) -/
+def Leaf_URLPath (l : Leaf) (vals : List (Bytes × Bytes)) (withOptional : Bool) : Bytes :=
+  Flamego.urlPath l.route vals withOptional
 
 end Flamego.Lib
